@@ -304,12 +304,16 @@ fn gen_impl_delegation_trait_defs(
                 .iter()
                 .filter(|sub_attr| !matches!(sub_attr, SubAttribute::AsyncTrait(_)));
 
+            // The selector trait is as visible as the trait it selects for (a `pub` one would make the
+            // target type of a crate-private trait part of a public interface)
+            let delegation_vis = &trait_copy.vis;
+
             Ok(Some(quote! {
                 #(#impl_sub_attributes)*
                 #trait_def
 
                 #(#cfg_attributes)*
-                pub trait #delegation_ident<EntraitT> {
+                #delegation_vis trait #delegation_ident<EntraitT> {
                     type Target: #impl_trait_ident<EntraitT>;
                 }
             }))
